@@ -99,8 +99,12 @@ structure NhPlan where
   preLl : Bool := false
   post : Option NextHopArg := none
   postLl : Bool := false
+  /-- which IPv6 address the harness passes as the global next hop: 0 = 2001:db8::1, 1 = the IPv4-mapped
+  ::ffff:10.0.0.1 (token suffix `@m`), 2 = the IPv4-compatible ::10.0.0.1 (`@c`).  The builder writes the
+  sixteen octets it was given, whatever they denote (round-6 seed: `to_canonical()` in `set_mp_nexthop`). -/
+  av : Nat := 0
 
-def nhOf : String → Option NhPlan
+def nhOf0 : String → Option NhPlan
   | "-" => some {}
   | "v4" => some { pre := some (.known .v4) } | "m4" => some { pre := some (.known .m4) }
   | "v6" => some { pre := some (.known .v6) } | "m6" => some { pre := some (.known .m6) }
@@ -116,6 +120,14 @@ def nhOf : String → Option NhPlan
   | "pll" => some { postLl := true }
   | "pv6" => some { post := some (.known .v6) }
   | "pv6ll" => some { post := some (.known .v6), postLl := true }
+  | _ => none
+
+/-- `<token>`, `<token>@m`, `<token>@c` (address variant of the IPv6 global next hop) -/
+def nhOf (s : String) : Option NhPlan :=
+  match s.splitOn "@" with
+  | [t] => nhOf0 t
+  | [t, "m"] => (nhOf0 t).map (fun p => { p with av := 1 })
+  | [t, "c"] => (nhOf0 t).map (fun p => { p with av := 2 })
   | _ => none
 
 /-- `<len>`, or `<len>+mp14` / `<len>+mp15` / `<len>+mp`: the attribute map additionally holds a raw
@@ -239,9 +251,13 @@ def RDNH : Bytes := [0, 1, 0, 2, 0, 3, 0, 4]
 /-- the address octets of the next hop the builder holds after the calls of the plan: the
 addresses the harness passes where `set_nexthop` was called, the all-zero next hop of
 `NextHop::new` (nexthop.rs:25) otherwise; the link-local address of `set_nexthop_ll_addr` -/
+def V6MAPPED : Bytes := [0, 0, 0, 0, 0, 0, 0, 0, 0, 0, 0xff, 0xff, 10, 0, 0, 1]
+def V6COMPAT : Bytes := [0, 0, 0, 0, 0, 0, 0, 0, 0, 0, 0, 0, 10, 0, 0, 1]
+
 def nhBytes (pl : NhPlan) (nh : NextHop) : Bytes :=
   let explicit := pl.pre.isSome || pl.post.isSome
   let z (n : Nat) : Bytes := List.replicate n 0
+  let V6NH : Bytes := if pl.av == 1 then V6MAPPED else if pl.av == 2 then V6COMPAT else V6NH
   match nh with
   | .v4 | .m4 => if explicit then V4NH else z 4
   | .v6 | .m6 => if explicit then V6NH else z 16
